@@ -28,7 +28,8 @@ def afterAdds (lim : Limits) (ops : List AuthOp) : AuthState :=
 
 /-- An unevaluated authorizer can always be saved. -/
 theorem save_unevaluated (lim : Limits) (ops : List AuthOp) : ∃ snap, save (afterAdds lim ops) = some snap := by
-  sorry
+  have hinv : SnapInv lim (afterAdds lim ops) := snap_inv_foldl lim ops _ (snap_inv_fresh lim)
+  exact ⟨_, snap_save_of_inv lim _ hinv⟩
 
 /-- **C18.** Loading the snapshot into a fresh authorizer yields *the same authorizer
 state* — for any content (all term types, any symbols, several checks, ordered policies
@@ -36,7 +37,10 @@ of both kinds) … -/
 theorem snapshot_restores (lim : Limits) (ops : List AuthOp) (snap : Snapshot)
     (h : save (afterAdds lim ops) = some snap) :
     load (AuthState.fresh lim) snap = afterAdds lim ops := by
-  sorry
+  have hinv : SnapInv lim (afterAdds lim ops) := snap_inv_foldl lim ops _ (snap_inv_fresh lim)
+  rw [snap_save_of_inv lim _ hinv] at h
+  cases h
+  exact snap_load_of_inv lim _ hinv
 
 /-- … hence the same authorization outcome and the same query results, for every token
 and every continuation of operations. -/
@@ -44,24 +48,27 @@ theorem snapshot_equiv (cfg : EvalCfg) (lim : Limits) (ops : List AuthOp) (snap 
     (h : save (afterAdds lim ops) = some snap) (toks : List Token) (j : Nat) (k : List AuthOp) :
     runSeq cfg false toks { tok := j, auth := load (AuthState.fresh lim) snap } k =
     runSeq cfg false toks { tok := j, auth := afterAdds lim ops } k := by
-  sorry
+  rw [snapshot_restores lim ops snap h]
 
 /-- The order of policies is preserved by save/load. -/
 theorem snapshot_keeps_policy_order (lim : Limits) (ops : List AuthOp) (snap : Snapshot)
     (h : save (afterAdds lim ops) = some snap) : snap.policies = (afterAdds lim ops).policies := by
-  sorry
+  have hinv : SnapInv lim (afterAdds lim ops) := snap_inv_foldl lim ops _ (snap_inv_fresh lim)
+  rw [snap_save_of_inv lim _ hinv] at h
+  cases h
+  rfl
 
 /-- Saving is refused once the authorizer has been evaluated. -/
 theorem save_refused_when_dirty (s : AuthState) (h : s.dirty = true) : save s = none := by
-  sorry
+  exact snap_save_dirty s h
 
 theorem authorize_sets_dirty (cfg : EvalCfg) (tok : Token) (s : AuthState) (w : World) (ap : AuthorityPhase)
     (h : authorityPhase cfg tok.authority s = (w, .ok ap)) : (authorize cfg tok s).1.dirty = true := by
-  sorry
+  exact snap_authorize_dirty cfg tok s w ap h
 
 theorem query_sets_dirty (cfg : EvalCfg) (s : AuthState) (q : DRule) (fs : List DFact)
     (h : (query cfg s q).2 = .ok fs) : (query cfg s q).1.dirty = true := by
-  sorry
+  exact snap_query_dirty cfg s q fs h
 
 /-! ### Wire level -/
 
@@ -69,7 +76,7 @@ theorem query_sets_dirty (cfg : EvalCfg) (s : AuthState) (q : DRule) (fs : List 
 `LoadPolicies` does on a fresh authorizer, gives back facts, rules, checks and policies. -/
 theorem snapshot_build_then_resolve (snap : Snapshot) :
     resolveSnapshot (buildSnapshotMsg snap) = some snap := by
-  sorry
+  exact sym_snapshot_build_then_resolve snap
 
 def PolicyWF (p : IPolicy) : Prop := p.kind < 2^31 ∧ p.queries.length < 2^20 ∧ ∀ q ∈ p.queries, RuleWF q
 
@@ -83,13 +90,15 @@ def PoliciesWF (m : PoliciesMsg) : Prop :=
 
 /-- Round trip of the snapshot bytes through the published schema. -/
 theorem policies_roundtrip (m : PoliciesMsg) (h : PoliciesWF m) : decodePolicies (encodePolicies m) = some m := by
-  sorry
+  obtain ⟨_, _, hver, _, hfacts, _, hrules, _, hchecks, _, hpol, hl⟩ := h
+  exact wire_decodePolicies_enc m hver hfacts hrules hchecks
+    (fun p hp => ⟨(hpol p hp).1, (hpol p hp).2.2⟩) hl
 
 /-- Loading is total: any byte string decodes to a message or is rejected (`Option`),
 and resolution of any message is an `Option` as well — there is no third outcome. The
 version gate is decision logic stated outright. -/
 theorem load_rejects_other_versions (m : PoliciesMsg) (h : m.version ≠ some 3) : resolveSnapshot m = none := by
-  sorry
+  exact sym_load_rejects_other_versions m h
 
 /-! Non-vacuity: a snapshot with two fresh symbols shared between a fact and a policy. -/
 def fUser : DFact := { name := strBytes "user", args := [.atom (.str (strBytes "alice"))] }
